@@ -215,3 +215,54 @@ func HarnessSecondStart(k int) {
 	vh.Assert("C17/start-on-inconsistent-leftover-is-refused", vh.Implies(!consistent, err != nil))
 	vh.Reach("end")
 }
+
+// HarnessRestart (C05): what every start does besides opening the file - inserting the genesis
+// header - leaves a non-empty store exactly as it was (every row, every state), whatever an
+// interrupted ingestion left behind; on an empty store it creates exactly the genesis row.
+func HarnessRestart(k int) {
+	cfg := &config.AppConfig{P2P: &config.P2PConfig{ChainNetType: config.MainNet}}
+	g := createGenesisHeaderBlock(cfg.P2P.GetNetParams().GenesisBlock.Header)
+	gh, gok := hstore.FromRow(g)
+	vh.Assert("C05/genesis-row-wellformed", gok)
+	if !gok {
+		return
+	}
+	pre := make([]hstore.H, k)
+	for i := range pre {
+		if i == 0 {
+			pre[i] = gh
+		} else {
+			pre[i] = hstore.NondetH()
+		}
+	}
+	db := vhdb.NewDB()
+	if k > 0 {
+		// arbitrary rows after genesis: only what the table itself guarantees (distinct hashes)
+		for i := range pre {
+			for j := 0; j < i; j++ {
+				vh.Assume(!vh.HashEq(pre[i].Hash, pre[j].Hash))
+			}
+			vh.Assume(vh.And(pre[i].State <= hstore.O, vh.BigLe(big.NewInt(0), pre[i].W), vh.BigLe(big.NewInt(0), pre[i].CW)))
+			vhdb.InsertHeaderRow(db, pre[i].Row())
+		}
+	}
+	err := insertGenesisBlock(&sqLiteAdapter{db: db}, cfg, vh.Logger())
+	vh.Assert("C05/restart-succeeds", err == nil)
+	post, ok := hstore.Load(db)
+	vh.Assert("C05/rows-wellformed-after-restart", ok)
+	if !ok {
+		return
+	}
+	if k == 0 {
+		vh.Assert("C05/empty-store-gets-exactly-genesis", len(post) == 1 && hstore.SameButState(post[0], gh) && post[0].State == hstore.L && post[0].Height == 0 && vh.BigEq(post[0].CW, post[0].W))
+		vh.Reach("created")
+		return
+	}
+	vh.Assert("C05/restart-changes-nothing", len(post) == k)
+	if len(post) == k {
+		for i := range pre {
+			vh.Assert("C05/restart-changes-nothing", vh.And(hstore.SameButState(pre[i], post[i]), pre[i].State == post[i].State))
+		}
+	}
+	vh.Reach("unchanged")
+}
